@@ -73,6 +73,9 @@ type cfg struct {
 	DialTO     time.Duration
 	Cooldown   time.Duration
 	CliQueue   int
+	CliQBytes  int
+	SrvQItems  int
+	SrvQBytes  int
 	SvcConc    int
 	SvcQueue   int
 	SvcTimeout time.Duration
@@ -155,6 +158,13 @@ type world struct {
 	pendingBySource map[uint64]int
 	batchMax        int
 
+	// server-side write queue refusing a response (observed through the server's
+	// observer events); armedWake: the blocked server writer of this direction
+	// gets its window update the moment a response is refused (answer+wspace action)
+	srvQueueFull, seenSrvQueueFull int
+	armedWake                      *dirState
+	armedFired                     bool
+
 	overlapMax int
 	okCount    int
 	softFaults int // timeouts, cancellations, split frames
@@ -189,6 +199,26 @@ func (w *world) ObserveTransport(ev transport.Event) {
 	w.mu.Unlock()
 }
 
+// serverObserver receives the server's observer events. The only Sends a server
+// connection performs are responses, so a refused admission there is a response
+// the server is about to drop.
+type serverObserver struct{ w *world }
+
+func (s serverObserver) ObserveTransport(ev transport.Event) {
+	if ev.Name != "scheduler_admission" || ev.Result != "full" {
+		return
+	}
+	w := s.w
+	w.mu.Lock()
+	w.srvQueueFull++
+	if d := w.armedWake; d != nil {
+		w.armedWake = nil
+		w.armedFired = true
+		wake(&d.spaceCh)
+	}
+	w.mu.Unlock()
+}
+
 // ---- configuration ----------------------------------------------------------
 
 func drawCfg(r *simkit.Run) cfg {
@@ -207,6 +237,14 @@ func drawCfg(r *simkit.Run) cfg {
 		c.Cap = []int{1 << 30, 64, 700, 4096}[tp.Weighted([]int{4, 1, 1, 1})]
 	} else {
 		c.Cap = 1 << 30
+	}
+	// per-connection write-queue limits (0 = the repo's defaults). With a tiny
+	// server-side queue and a slow reader the response path runs into ErrQueueFull.
+	c.SrvQItems = []int{0, 1, 2, 3}[tp.Weighted([]int{4, 1, 1, 1})]
+	c.SrvQBytes = []int{0, 48, 600}[tp.Weighted([]int{5, 1, 1})]
+	c.CliQBytes = []int{0, 600}[tp.Weighted([]int{6, 1})]
+	if c.SrvQItems > 0 && c.Cap == 1<<30 && tp.Chance(2, 3) {
+		c.Cap = []int{64, 700, 4096}[tp.Intn(3)] // a slow reader, also in runs without injected faults
 	}
 	c.Chunk = tp.Weighted([]int{2, 3, 2})
 	c.MaxBody = []int{4096, 256, 1024, 65536}[tp.Intn(4)]
@@ -248,12 +286,26 @@ func (c cfg) limits(server bool) transport.Limits {
 		WriteTimeout:          c.WriteTO,
 	}
 	if !server {
-		// only the client's queue may be tiny: a full queue is reported to the
-		// caller; the server silently drops a response it cannot queue
+		// a full client queue is reported to the caller
 		l.MaxQueuedItemsPerConn = c.CliQueue
+		if c.CliQBytes > 0 {
+			l.MaxQueuedBytesPerConn = int64(c.CliQBytes)
+		}
+		return l
+	}
+	// the server silently drops a response it cannot queue: every call of such a
+	// run gets a deadline (see startOp)
+	if c.SrvQItems > 0 {
+		l.MaxQueuedItemsPerConn = c.SrvQItems
+	}
+	if c.SrvQBytes > 0 {
+		l.MaxQueuedBytesPerConn = int64(c.SrvQBytes)
 	}
 	return l
 }
+
+// serverMayDropResponses: the server-side write queue is small enough to refuse responses.
+func (c cfg) serverMayDropResponses() bool { return c.SrvQItems > 0 || c.SrvQBytes > 0 }
 
 // ---- payloads -----------------------------------------------------------------
 
@@ -372,7 +424,8 @@ func runWorld(t *testing.T, r *simkit.Run) {
 		"batch_wait_us": c.BatchWait.Microseconds(), "write_to_ms": c.WriteTO.Milliseconds(), "dial_to_ms": c.DialTO.Milliseconds(),
 		"cooldown_ms": c.Cooldown.Milliseconds(), "cli_queue": c.CliQueue, "svc_conc": c.SvcConc, "svc_queue": c.SvcQueue,
 		"svc_timeout_ms": c.SvcTimeout.Milliseconds(), "start_bias": c.StartBias, "deadline_bias": c.DeadlineBias,
-		"cancel_bias": c.CancelBias, "err_bias": c.ErrBias, "data": c.DataFrames}
+		"cancel_bias": c.CancelBias, "err_bias": c.ErrBias, "data": c.DataFrames,
+		"cli_queue_bytes": c.CliQBytes, "srv_queue_items": c.SrvQItems, "srv_queue_bytes": c.SrvQBytes}
 	// sync.Pools survive across runs; anything pooled that owns a channel created in
 	// the previous run's bubble would crash the worker when reused in this one
 	// ("synctest channel from outside bubble"). Two GC cycles empty the pools.
@@ -381,7 +434,7 @@ func runWorld(t *testing.T, r *simkit.Run) {
 	simkit.Bubble(t, r, func() {
 		w := &world{r: r, sim: simkit.NewWorld(r), cfg: c, opsLeft: c.Ops, curOp: -1, pendingBySource: map[uint64]int{}, connectedSlots: map[int]int{}}
 		defer w.teardown()
-		srv, err := transport.NewServer(transport.ServerConfig{NodeID: serverNode, Limits: c.limits(true)})
+		srv, err := transport.NewServer(transport.ServerConfig{NodeID: serverNode, Limits: c.limits(true), Observer: serverObserver{w}})
 		if err != nil {
 			r.Infra("NewServer: %v", err)
 			return
@@ -632,6 +685,16 @@ func (w *world) examineFrame(c *simConn, d *dirState, idx int, f *frameInfo) {
 	}
 	o.respSeen = true
 	status := "empty"
+	if len(f.body) == 0 && os.Getenv("RPCSIM_NO_WIRE_EMPTY") != "1" {
+		// the client decodes a zero-length body as success without payload; no handler
+		// of this world answers with nothing, so this frame is nobody's response
+		// (RPCSIM_NO_WIRE_EMPTY=1 leaves the verdict to the caller-side oracle, for sensitivity experiments)
+		w.mu.Lock()
+		dec := o.handlerDecision
+		w.mu.Unlock()
+		r.FailSig("wire-response-mismatch", "empty-body", fmt.Sprintf("c%d s2c frame#%d: response for id %d (%s) has a zero-length body (no status, no payload); handler decision %d", c.id, idx, h.RequestID, o.tag, dec), nil)
+		return
+	}
 	if len(f.body) > 0 {
 		w.mu.Lock()
 		dec := o.handlerDecision
@@ -732,6 +795,14 @@ func (w *world) judge(o *op) {
 			got := tagOf(bytes.TrimPrefix(o.resp, []byte("R")))
 			if got != "" && got != o.tag {
 				r.FailSig("wrong-response", "", fmt.Sprintf("call %s returned the response of %s", o.tag, got), map[string]any{"want": o.tag, "got": got, "conn": connName(o.conn), "request_id": o.reqID})
+				return
+			}
+			if dec != decAnswerOK {
+				r.FailSig("phantom-response", "success-without-ok-answer", fmt.Sprintf("call %s returned success with %s although its handler did not answer OK (decision %d: -1 none, 1 failed, 2 ctx; runs %d)", o.tag, short(o.resp), dec, runs), nil)
+				return
+			}
+			if len(o.resp) == 0 {
+				r.FailSig("wrong-response", "empty", fmt.Sprintf("call %s returned success with an empty payload; its handler answered %s", o.tag, short(want)), nil)
 				return
 			}
 			r.Fail("garbled-response", fmt.Sprintf("call %s returned %s, want %s", o.tag, short(o.resp), short(want)), nil)
@@ -881,6 +952,21 @@ func (w *world) observe() {
 		r.ProbeN("conn.write_timeout", wt-w.seenWriteTO) // consequence of a stall or of slow delivery, not an injected fault
 		r.Logf("  write deadline exceeded x%d", wt-w.seenWriteTO)
 		w.seenWriteTO = wt
+	}
+	w.mu.Lock()
+	qf, armed, fired := w.srvQueueFull, w.armedWake, w.armedFired
+	w.armedWake, w.armedFired = nil, false
+	w.mu.Unlock()
+	if qf > w.seenSrvQueueFull {
+		r.ProbeN("response_send_queue_full", qf-w.seenSrvQueueFull)
+		r.Logf("  server write queue full: %d response send(s) refused", qf-w.seenSrvQueueFull)
+		w.seenSrvQueueFull = qf
+	}
+	if fired {
+		r.Probe("response_refused_then_writer_resumed")
+		r.Logf("  the blocked server writer got its window update right after the refusal")
+	} else if armed != nil {
+		r.Logf("  (the response was queued; the server writer stays blocked)")
 	}
 	if dt > w.seenDialTO {
 		r.ProbeN("dial.timeout", dt-w.seenDialTO) // black-holed (counted as a fault when injected) or connected too late
@@ -1033,6 +1119,30 @@ func (w *world) collect() []simkit.Action {
 			acts = append(acts, simkit.Action{Prio: 0, Key: "answer " + p.Key, Weight: 8, Do: func() { w.sim.Release(p, decAnswerOK) }})
 			if !w.final && c.ErrBias > 0 {
 				acts = append(acts, simkit.Action{Prio: 2, Key: "fail " + p.Key, Weight: c.ErrBias, Do: func() { w.sim.Release(p, decAnswerErr) }})
+			}
+			// the handler finishes while the server's writer is blocked behind a slow
+			// reader; if the write queue refuses the response, the writer's pending
+			// window update arrives right then (within the step). On the unchanged tree
+			// the refused response is simply dropped; code that re-offers it after the
+			// refusal finds room.
+			if cn := info.op.conn; !w.final && cn != nil {
+				d := cn.s2c
+				w.mu.Lock()
+				can := !d.reset && !d.readerClosed && !now.Before(d.stalledUntil) && d.writerBlocked && d.spaceCh != nil && d.inflight() < d.capBytes
+				w.mu.Unlock()
+				if can {
+					acts = append(acts, simkit.Action{Prio: 2, Key: "answer+wspace " + p.Key, Weight: 6, Do: func() {
+						dec := decAnswerOK
+						if c.ErrBias > 0 && r.Tape.Chance(1, 4) {
+							dec = decAnswerErr
+						}
+						w.mu.Lock()
+						w.armedWake, w.armedFired = d, false
+						w.mu.Unlock()
+						r.Logf("  handler decision %d; c%d s2c writer is blocked with a window update pending", dec, cn.id)
+						w.sim.Release(p, dec)
+					}})
+				}
 			}
 		}
 	}
@@ -1450,6 +1560,10 @@ func (w *world) startOp() {
 		// the server cannot send this response and drops it without telling the
 		// caller; only a deadline ends such a call
 		o.timeout = 400 * time.Millisecond
+	}
+	if o.kind == kindCall && o.timeout == 0 && c.serverMayDropResponses() {
+		// a server whose write queue is full drops the response silently as well
+		o.timeout = []time.Duration{400 * time.Millisecond, 3 * time.Second}[tp.Intn(2)]
 	}
 	if o.timeout > 0 {
 		o.timeout += time.Duration(o.id*137) * time.Nanosecond
